@@ -72,6 +72,8 @@ SHAPES = {
     "generic_enum": "enum S<T, U = i32> {{ {V}A({F}T), B(U) }}", "raw_names": "enum r#enum {{ {V}r#fn({F}i32), r#in {{ r#type: u8 }} }}",
     "raw_unit_enum": "enum r#enum {{ {V}r#fn, r#in }}", "raw_struct": "struct r#struct {{ {F}r#type: i32, {G}r#fn: u8 }}",
     "raw_newtype": "struct r#fn({F}i32);",
+    "unit_where": "struct S where u8: Copy;", "tuple0_where": "struct S() where u8: Copy;", "named0_where": "struct S where u8: Copy {{}}",
+    "enum_empty_where": "enum S<T> where T: Clone {{}}",
     "array_const": "struct S<T>({F}[T; LEN], {G}[u8; core::mem::size_of::<u64>()], Wrap<{{ LEN + 1 }}>);",
 }
 
